@@ -98,7 +98,7 @@ class C20System(BuilderSystem):
             ops.append(["add_hook", [h]])
             ops.append(["remove_hook", [h]])
         ops += [["move", [], {"x": 3.0}], ["move", [], {"x": 1.0, "y": -1.0, "z": 0.5}], ["move", [], {"y": 2.5, "F": 900}],
-                ["move", [], {"z": 1.0}],
+                ["move", [], {"z": 1.0}], ["move", [], {"x": 2.0, "y": 1.0, "E": 0.5}],      # the caller passes an E of its own
                 ["rapid", [], {"x": 0.0, "y": 4.0}], ["move_absolute", [], {"x": 5.0, "y": 1.0}], ["rapid_absolute", [], {"x": 2.0}],
                 ["trace.polyline", [[tgt(2, 0), tgt(2, 2, 1)] if not rel else [[2, 0], [0, 2, 1]]]],
                 ["trace.arc", [tgt(2, 2), [2, 0]]],
@@ -227,7 +227,7 @@ class C20System(BuilderSystem):
                         problems.append(("emitted-param-not-from-hooks", f"{op}: line {block!r}: {k} emitted but last hook returned {final}"))
             # extrusion clause (exactly one extrusion hook, and it is the last one to touch E)
             ext = [h for h in st.registered if h.startswith("ext")]
-            if len(ext) == 1 and "E" in info["others"] and not ({"X", "Y"} & getattr(st, "unknown_axes", set())) and "E" not in {k.upper() for k in (op[2] if len(op) > 2 else {})}:
+            if len(ext) == 1 and "E" in info["others"] and not ({"X", "Y"} & getattr(st, "unknown_axes", set())):
                 length = math.hypot(cur["X"] - before["X"], cur["Y"] - before["Y"])
                 amount = k_of(ext[0]) * length
                 want = amount if st.e_mode == "relative" else st.e_last + amount
